@@ -185,7 +185,7 @@ def run(ctx):
             ctx.violations[k] = ("replayed case still fails", payload)
         shutil.rmtree(scratch, ignore_errors=True)
         return ctx.finish(RULE, False, [])
-    total = 12000 if ctx.thorough else 480
+    total = 8000 if ctx.thorough else 480
     infra = core.hypothesis_search(ctx, "pyv.c21", total)
     scratch = core.make_scratch("C21", "kf")
     rc = ctx.finish(RULE, False, [
